@@ -132,10 +132,9 @@ func (sh *SearchHistory) AddEntry(query string, resultsCount int, context string
 	if len(sh.Entries) > 0 && sh.Entries[len(sh.Entries)-1].Query == query {
 		// Update the existing entry instead of adding a duplicate
 		sh.Entries[len(sh.Entries)-1] = entry
-		return
+	} else {
+		sh.Entries = append(sh.Entries, entry)
 	}
-
-	sh.Entries = append(sh.Entries, entry)
 
 	// Trim to max size if needed
 	if sh.MaxSize <= 0 {
